@@ -121,7 +121,7 @@ type verifC03Stub struct {
 	byLoc   map[string]int
 	log     []string
 	gate    bool
-	pending map[int]chan struct{}
+	pending map[int][]chan struct{} // blocked requests per block, in order of arrival
 }
 
 func (s *verifC03Stub) Do(req *http.Request) (*http.Response, error) {
@@ -162,7 +162,7 @@ func (s *verifC03Stub) Do(req *http.Request) (*http.Response, error) {
 	var ch chan struct{}
 	if s.gate {
 		ch = make(chan struct{})
-		s.pending[b] = ch
+		s.pending[b] = append(s.pending[b], ch)
 	}
 	s.mtx.Unlock()
 	if ch != nil {
@@ -216,7 +216,7 @@ func verifC03Class(err error) string {
 }
 
 func verifC03Setup(retries, maxBlocks int, uuids string, blocks string, gate bool) (*KeepClient, *verifC03Stub, error) {
-	stub := &verifC03Stub{byLoc: map[string]int{}, gate: gate, pending: map[int]chan struct{}{}}
+	stub := &verifC03Stub{byLoc: map[string]int{}, gate: gate, pending: map[int][]chan struct{}{}}
 	locals := map[string]string{}
 	nsvc := 0
 	if uuids != "-" {
@@ -564,7 +564,7 @@ func verifC03Sess(f []string) string {
 // goroutines (BlockCache.Get.func1).
 var verifC03StackBuf = make([]byte, 1<<18)
 
-func verifC03Goroutines() (blockedReaders, fetchers int) {
+func verifC03Goroutines() (blockedReaders, fetchers, sweepers int) {
 	buf := verifC03StackBuf
 	n := runtime.Stack(buf, true)
 	for n == len(buf) {
@@ -575,16 +575,22 @@ func verifC03Goroutines() (blockedReaders, fetchers int) {
 	const pkg = "git.arvados.org/arvados.git/sdk/go/keepclient."
 	for _, g := range strings.Split(string(buf[:n]), "\n\n") {
 		lines := strings.Split(g, "\n")
-		isFetch, inGet := false, false
+		isFetch, inGet, isSweep := false, false, false
 		for _, l := range lines[1:] {
 			if strings.HasPrefix(l, pkg+"(*BlockCache).Get.func1(") {
 				isFetch = true
 			} else if strings.HasPrefix(l, pkg+"(*BlockCache).Get(") {
 				inGet = true
+			} else if strings.HasPrefix(l, "created by "+pkg+"(*BlockCache).Get.func1 ") ||
+				strings.HasPrefix(l, pkg+"(*BlockCache).Get.func1.") {
+				// the `go c.Sweep()` a finished fetch leaves behind (possibly not started yet)
+				isSweep = true
 			}
 		}
 		if isFetch {
 			fetchers++
+		} else if isSweep {
+			sweepers++
 		} else if inGet && strings.Contains(lines[0], "[chan receive") {
 			blockedReaders++
 		}
@@ -592,12 +598,22 @@ func verifC03Goroutines() (blockedReaders, fetchers int) {
 	return
 }
 
+// verifC03Conc runs "conc <retries> <uuids> <blocks> <schedule>" (MaxBlocks 0) and
+// "concm <retries> <maxblocks> <uuids> <blocks> <schedule>".
 func verifC03Conc(f []string) string {
 	retries, err := strconv.Atoi(f[1])
 	if err != nil {
 		return "bad-op"
 	}
-	kc, stub, err := verifC03Setup(retries, 0, f[2], f[3], true)
+	maxb := 0
+	if f[0] == "concm" {
+		maxb, err = strconv.Atoi(f[2])
+		if err != nil {
+			return "bad-op"
+		}
+		f = append([]string{"conc", f[1]}, f[3:]...)
+	}
+	kc, stub, err := verifC03Setup(retries, maxb, f[2], f[3], true)
 	if err != nil {
 		return "bad-op"
 	}
@@ -607,16 +623,20 @@ func verifC03Conc(f []string) string {
 	npending := func() int {
 		stub.mtx.Lock()
 		defer stub.mtx.Unlock()
-		return len(stub.pending)
+		n := 0
+		for _, chs := range stub.pending {
+			n += len(chs)
+		}
+		return n
 	}
 	quiesce := func() bool {
 		deadline := time.Now().Add(300 * time.Second)
 		for i := 0; ; i++ {
-			br, fe := verifC03Goroutines()
-			if int(atomic.LoadInt32(&started)) == int(atomic.LoadInt32(&finished))+br && fe == npending() {
+			br, fe, sw := verifC03Goroutines()
+			if sw == 0 && int(atomic.LoadInt32(&started)) == int(atomic.LoadInt32(&finished))+br && fe == npending() {
 				// re-check once: a goroutine may have been between two states
-				br2, fe2 := verifC03Goroutines()
-				if br2 == br && fe2 == fe && int(atomic.LoadInt32(&started)) == int(atomic.LoadInt32(&finished))+br2 && fe2 == npending() {
+				br2, fe2, sw2 := verifC03Goroutines()
+				if sw2 == 0 && br2 == br && fe2 == fe && int(atomic.LoadInt32(&started)) == int(atomic.LoadInt32(&finished))+br2 && fe2 == npending() {
 					return true
 				}
 			}
@@ -630,10 +650,44 @@ func verifC03Conc(f []string) string {
 			}
 		}
 	}
+	// a synchronous Sweep, then the oldest blocked request for block b goes on: when the fetch it belongs
+	// to completes, the cache holds at most MaxBlocks entries, so the `go c.Sweep()` of the fetch goroutine
+	// finds nothing to do whenever it runs relative to the woken readers' lastUse updates
+	evicted := 0
+	sweep := func() {
+		// white-box: which entries are still being fetched, and are they gone after the Sweep?
+		c := kc.BlockCache
+		pend := map[string]*cacheBlock{}
+		c.mtx.Lock()
+		for k, b := range c.cache {
+			select {
+			case <-b.fetched:
+			default:
+				pend[k] = b
+			}
+		}
+		c.mtx.Unlock()
+		c.Sweep()
+		c.mtx.Lock()
+		for k, b := range pend {
+			if c.cache[k] != b {
+				evicted++
+			}
+		}
+		c.mtx.Unlock()
+	}
 	release := func(b int) {
+		sweep()
 		stub.mtx.Lock()
-		ch := stub.pending[b]
-		delete(stub.pending, b)
+		var ch chan struct{}
+		if chs := stub.pending[b]; len(chs) > 0 {
+			ch = chs[0]
+			if len(chs) == 1 {
+				delete(stub.pending, b)
+			} else {
+				stub.pending[b] = chs[1:]
+			}
+		}
 		stub.mtx.Unlock()
 		if ch != nil {
 			close(ch)
@@ -644,7 +698,7 @@ func verifC03Conc(f []string) string {
 			stub.mtx.Lock()
 			var chs []chan struct{}
 			for b, ch := range stub.pending {
-				chs = append(chs, ch)
+				chs = append(chs, ch...)
 				delete(stub.pending, b)
 			}
 			stub.mtx.Unlock()
@@ -652,7 +706,7 @@ func verifC03Conc(f []string) string {
 				close(ch)
 			}
 			if atomic.LoadInt32(&started) == atomic.LoadInt32(&finished) {
-				_, fe := verifC03Goroutines()
+				_, fe, _ := verifC03Goroutines()
 				if fe == 0 {
 					return
 				}
@@ -665,6 +719,10 @@ func verifC03Conc(f []string) string {
 	stub.mtx.Unlock()
 	if f[4] != "-" {
 		for _, st := range strings.Split(f[4], ",") {
+			if st == "x" {
+				sweep()
+				continue
+			}
 			if len(st) < 2 {
 				releaseAll()
 				return "bad-op"
@@ -734,7 +792,7 @@ func verifC03Conc(f []string) string {
 	if len(out) > 0 {
 		res = strings.Join(out, ",")
 	}
-	return res + " " + verifC03Log(stub)
+	return res + fmt.Sprintf(" ev=%d ", evicted) + verifC03Log(stub)
 }
 
 func verifC03Case(line string) (out string) {
@@ -747,7 +805,7 @@ func verifC03Case(line string) (out string) {
 	switch {
 	case f[0] == "sess" && len(f) == 7:
 		return verifC03Sess(f)
-	case f[0] == "conc" && len(f) == 5:
+	case f[0] == "conc" && len(f) == 5, f[0] == "concm" && len(f) == 6:
 		return verifC03Conc(f)
 	}
 	return "bad-op"
